@@ -17,7 +17,7 @@ EXPLANATION = (
     "path: the sum of all objective values, kinetic energies and the buffer is unchanged (1e-9 relative), no kinetic "
     "energy or buffer is negative, exactly the reactant and product populations are consumed from the stack, there is "
     "one molecule record per individual afterwards and the records that were not part of the reaction stay at the "
-    "index of their individual (identity tracked through each record's hit counter). Every configuration is evaluated twice: with fresh records (remembered best = the current individual) and with records that remember a strictly better individual than the one they hold (the history after an accepted uphill move) - the energy of a reactant is that of the individual it holds NOW. (R5) the base case: ChemicalReactionInit::execute leaves exactly one fresh record (configured kinetic energy, no hits) per individual of the current population, in order, also when records of an earlier initialisation are still stored, and leaves the stack alone. K4: none of the updates "
+    "index of their individual (identity tracked through each record's hit counter). Every configuration is evaluated twice: with fresh records (remembered best = the current individual) and with records that remember a strictly better individual than the one they hold (the history after an accepted uphill move) - the energy of a reactant is that of the individual it holds NOW. (R5) the base case: ChemicalReactionInit::execute leaves exactly one fresh record (configured kinetic energy, no hits) per individual of the current population, in order, also when records of an earlier initialisation are still stored, and leaves the stack alone. (R6) two molecules holding EQUAL individuals (selection copies them) react as the two distinct molecules they are - adjacent, or with a bystander molecule between them: the update completes, conserves energy, keeps one record per individual and leaves the bystander alone. K4: none of the updates "
     "re-acquires a state type whose guard it still holds. (INIT) init() evaluated with every field of self a distinct symbol inserts exactly the state types of a reviewed table, under the component's own instantiation, each built from exactly the documented field or empty / zero. NOT decided: conservation as an arithmetic identity over "
     "arbitrary floats (only at the sampled configurations), the reaction-selection criteria's probabilities.")
 EXPLANATION += " " + '(revised) records and buffer are cells of the typed store; (R2 revised) net stack effect -2 on every Ok path, reaching no deeper than the population underneath.'
@@ -176,6 +176,7 @@ def run(ctx):
     ctx.guard("C20.R1", "updates", lambda: r1_updates(ctx))
     ctx.guard("C20.R4", "guards", lambda: r4_guards(ctx))
     ctx.guard("C20.R5", "initialisation", lambda: r5_init(ctx))
+    ctx.guard("C20.R6", "two molecules holding equal individuals react as the two molecules they are, wherever they sit", lambda: equal_molecules(ctx, "C20.R6"))
 
 
 def r1_updates(ctx):
@@ -253,6 +254,21 @@ def equal_molecules(ctx, rule):
                 bad.append("%s %s" % (p.end, p.ret if p.end == "return" else ""))
         ctx.check(not bad, rule, fn.key, "equal-molecules-are-distinct-reactants",
                   "container [dup, dup, i2] (two molecules holding equal individuals), reactants = molecules 0 and 1: the update ends with %s - it locates reactants by VALUE equality (position(|i| i == &r)), so both resolve to index 0 and a valid run fails" % (bad[0] if bad else ""), loc=fn.loc())
+        # ... and as the two molecules they ARE, wherever they sit: adjacent, or with a bystander molecule between them
+        # (energy conserved, one record per individual, the bystander and its record untouched)
+        bad = []
+        for tags, kes, ridx in ((("dup", "dup", "i2"), [2.0, 3.0, 1.0], [0, 1]), (("dup", "i1", "dup"), [2.0, 1.0, 3.0], [0, 2]), (("i0", "dup", "dup"), [1.0, 2.0, 3.0], [1, 2])):
+            pop = [indiv(t, 5.0 if t == "dup" else 6.0) for t in tags]
+            paths, home_buf, mols = evaluate(F, fn, me, pop, kes, [pop[ridx[0]], pop[ridx[1]]], products, 8.0, fields_mol)
+            label = "container %s (the two `dup` molecules hold equal individuals), reactants = molecules %d and %d" % (list(tags), ridx[0], ridx[1])
+            check_paths(paths, home_buf, pop, mols, 8.0, label, fields_mol, bad, ridx)
+            by = [t for t in tags if t != "dup"][0]
+            for p in paths:
+                if p.end == "return" and isinstance(p.ret, Agg) and p.ret.variant == "Ok":
+                    left = [getattr(x.fields[0], "tag", "?") for x in p.mstate["heap"].get("pop", ())]
+                    if left.count("s:" + by) != 1:
+                        bad.append((label, "leaves the individuals %s: the bystander molecule %s, which took no part in the reaction, must still be there exactly once" % (left, by)))
+        ctx.check(not bad, rule, fn.key, "equal-molecules-wherever-they-sit", "%s: the update %s" % (bad[0] if bad else ("", "")), loc=fn.loc())
 
 
 def r5_init(ctx):
